@@ -256,4 +256,22 @@ CHECKS = {
              "modelled (the wallet-level run shows the output script appears in the clear once a transaction is recorded - the property's 'until'). Observations "
              "not raised (letter of C04 holds): the script crypto key is all-zero (S5), deletePrivateKeys misses adtTaprootScript, conversion does not scrub bbolt "
              "free pages (old sealed blobs remain until pages are reused). No axioms."),
+    "C08": dict(
+        text="Model Addr/MemDisk.v: database rows (account rows with name and next indices, name/id indices, last account, address and used sets, synced-to, the "
+             "block-hash window with MaxReorgDepth eviction, start block, birthday, birthday block) and memory (acctInfo cache with last addresses, address cache, "
+             "sync state, birthday); database transactions that commit, are aborted by the caller, are aborted as dry run (walletdb.ErrDryRunRollBack) or whose "
+             "commit fails, OnCommit closures running only on a successful commit; for each operation (NewAccount, RenameAccount, Next/ExtendAddresses, MarkUsed, "
+             "SetSyncedTo, SetBirthday, SetBirthdayBlock, Import*, all reads) WHEN memory changes relative to the write is transcribed. Proved, unbounded: "
+             "C08_outside_K - after every transaction boundary of every history outside the decidable pattern K the running manager answers every query of the "
+             "property's list exactly as `reopen disk` does; C08_rollback_does_not_advance_indices - a rolled-back transaction made of issuance and reads changes "
+             "neither the database nor any cached index, from any state; C08_next_issue_equals_restart - outside K_idx (a subset of K) the next committed issuance "
+             "returns and writes exactly what a restarted manager would; C08_dry_run_issuance; C08_refuted_at_K - one witness per trigger. The flag "
+             "'nextAddresses caches the read-back address before commit' is regenerated from scoped_manager.go (false after the fix). Tie to the code: real "
+             "waddrmgr on bbolt behind a wrapper that can abort or fail commits, plus the real wallet (NewAddress, NewChangeAddress, CreateSimpleTx incl. dry run); "
+             "after EVERY transaction the file is copied, opened with a fresh waddrmgr.Open, and both managers answer the full query set.",
+        note="PARTIAL: the equivalence is proved outside K and refuted inside. K = an aborted transaction holding rename, set-synced-to, set-birthday, extend, "
+             "import, or new-account followed by a read of it; or a committed transaction holding extend after next-addresses on the same branch, or "
+             "SetSyncedTo(nil). 14 (kind, site) pairs of K are recorded known findings (eager in-memory updates, same root cause as C10's); S4 (phantom address "
+             "after a rolled-back issuance) was repaired (fix: a362ebf). One key scope, manager unlocked, no watch-only accounts, fault-free database in the model. "
+             "Trusted: address<->path table derived with hdkeychain, bbolt. No axioms."),
 }
